@@ -77,7 +77,9 @@ def finalize(db):
     c.binds = {"data": "opaque"}
     c.modifies = ["ghost.decoded"]
     c.ensures = {"remembered": "ghost.decoded == result",
-                 "ttl_representable": "result.ttl is None or dt_in_range(result.timestamp + result.ttl)"}
+                 "ttl_representable": "result.ttl is None or dt_in_range(result.timestamp + result.ttl)",
+                 # what is stored was produced from valid parameters (Job.__init__ validation; croniter absent)
+                 "stored_parameters_were_valid": "P_next_ok(result)"}
     c.raises = [Raises("Exception", mode="may", anysub=True)]
     c.note = "callers outside the round-trip harness see decode() through these clauses (the harness verifies the body)"
 
